@@ -94,6 +94,11 @@ def cases(tier, seed):
         cur = CURRENTS[len(TERMS[d])]
         for c, sc in itertools.product((cur[0], cur[1], cur[6]), (1e-9, 1e3) if not quick else (1e-9,)):
             out.append(dict(fam="run", dev=d, dens="coarse", cur=c, field="zero", adaptive=False, k=2, screening=False, units="um", seeded=False, cur_scale=sc))
+    # thermalisation: the recorded stage starts from a thermalised state, with step counter and clock restarted at 0
+    for d in ("G1", "G3", "G4"):
+        cur = CURRENTS[len(TERMS[d])]
+        for c, field in itertools.product((cur[1], "ramp", "switch_sparse") if quick else (cur[1], cur[6], "ramp", "switch", "switch_sparse"), ("static", "ramp")):
+            out.append(dict(fam="run", dev=d, dens="coarse", cur=c, field=field, adaptive=False, k=2, screening=False, units="um", seeded=False, thermal=True))
     # acceptance
     scales = ["1", "0.1"] if quick else ["1", "0.1", "1/3", "0.001"]
     for d in ("G1", "G3", "G4"):
@@ -214,7 +219,7 @@ def run_run(case):
     opts = tdgl.SolverOptions(
         solve_time=nsteps * dt, dt_init=dt, dt_max=(2 * dt if case["adaptive"] else dt), adaptive=case["adaptive"], adaptive_window=2,
         save_every=case["k"], output_file="out.h5", field_units=fu, current_units=cu, include_screening=case["screening"],
-        screening_tolerance=1e-2, progress_interval=10**9,
+        screening_tolerance=1e-2, progress_interval=10**9, skip_time=(3 * dt if case.get("thermal") else 0.0),
     )
     alive = None
     if prior:
@@ -271,6 +276,8 @@ def run_run(case):
         if s == 0:
             if case["seeded"]:
                 tprev = 5 * dt - dt  # the seed run's last update
+            elif case.get("thermal"):
+                tprev = 2 * dt  # the last update of the thermalisation stage (fixed steps at t = 0, dt, 2 dt)
             else:
                 tprev = None
         else:
@@ -289,7 +296,7 @@ def run_run(case):
         res.states.add(f"{case['dev']}/{res.key}/{s}")
         if np.abs(F).max() > 0:
             res.count("frames_with_current")
-        if s == 0 and not case["seeded"]:
+        if s == 0 and not case["seeded"] and not case.get("thermal"):
             if rel > TOLERANCES["cell"]:
                 res.violate("frame0-placeholder-currents", seeded=False, all_zero_currents=bool(np.abs(F).max() == 0),
                             detail={"case": case, "rel": rel})
